@@ -93,9 +93,9 @@ def _lang_of_value(val, br, lm, heads):
 
 
 def _lang_of_accumulator(var, br, lm, heads):
+    """Characters a token-value accumulator can collect inside its branch."""
     src, head = lm.src_var, lm.head_var
     chars: set | None = set()
-    bounded = False
 
     def add_chars(cs):
         nonlocal chars
@@ -122,39 +122,73 @@ def _lang_of_accumulator(var, br, lm, heads):
                     return set(v)
         return ANYSET
 
+    # assignments of helper locals, with the charset of the loop they sit in
+    local_defs: dict[str, list] = {}
+
+    def collect(stmts, charset):
+        for st in stmts:
+            if isinstance(st, ast.Assign) and len(st.targets) == 1 \
+                    and isinstance(st.targets[0], ast.Name):
+                local_defs.setdefault(st.targets[0].id, []).append(
+                    (st.value, charset))
+            if isinstance(st, ast.While):
+                collect(st.body, guard_charset(st.test))
+            elif isinstance(st, ast.If):
+                collect(st.body, charset)
+                collect(st.orelse, charset)
+            elif isinstance(st, ast.For):
+                collect(st.body, ANYSET)
+    collect(br.body, ANYSET)
+
+    def expr_chars(e, charset, depth=0):
+        """character set an expression can contribute (None = nothing new)"""
+        if isinstance(e, ast.Constant) and isinstance(e.value, str):
+            return set(e.value)
+        if isinstance(e, ast.Name):
+            if e.id == var:
+                return set()
+            if e.id == head:
+                return ANYSET if heads is ANY else set(heads)
+            if e.id in local_defs and depth < 3:
+                out = set()
+                for v, cs in local_defs[e.id]:
+                    c = expr_chars(v, cs, depth + 1)
+                    if c is ANYSET:
+                        return ANYSET
+                    out |= c
+                return out
+            return ANYSET
+        if isinstance(e, ast.BinOp) and isinstance(e.op, ast.Add):
+            l, r = expr_chars(e.left, charset, depth), expr_chars(
+                e.right, charset, depth)
+            if l is ANYSET or r is ANYSET:
+                return ANYSET
+            return l | r
+        if _is_popleft(e, src):
+            return charset
+        if isinstance(e, ast.Subscript) and isinstance(e.value, ast.Name) \
+                and e.value.id == src:
+            return charset
+        return ANYSET
+
     def visit(stmts, charset):
         for st in stmts:
             if isinstance(st, ast.Assign) and any(
                     isinstance(t, ast.Name) and t.id == var
                     for t in st.targets):
-                v = st.value
-                if isinstance(v, ast.Constant) and isinstance(v.value, str):
-                    add_chars(set(v.value))
-                elif isinstance(v, ast.Name) and v.id == head:
-                    add_chars(ANYSET if heads is ANY else set(heads))
-                else:
-                    add_chars(ANYSET)
+                add_chars(expr_chars(st.value, charset))
             elif isinstance(st, ast.AugAssign) and isinstance(
                     st.target, ast.Name) and st.target.id == var:
-                for n in ast.walk(st.value):
-                    if _is_popleft(n, src):
-                        add_chars(charset)
-                    elif isinstance(n, ast.Constant) and isinstance(
-                            n.value, str):
-                        add_chars(set(n.value))
-                    elif isinstance(n, ast.Name) and n.id not in (src,):
-                        add_chars(ANYSET)
+                add_chars(expr_chars(st.value, charset))
             elif isinstance(st, ast.While):
                 visit(st.body, guard_charset(st.test))
             elif isinstance(st, ast.If):
-                # a popleft guarded by an explicit test on the popped value
                 visit(st.body, charset)
                 visit(st.orelse, charset)
             elif isinstance(st, ast.For):
                 visit(st.body, ANYSET)
 
     visit(br.body, ANYSET)
-    # `character = source.popleft(); value += character`
     return Lang(chars, None)
 
 
